@@ -603,6 +603,7 @@ impl SessionEngine {
             &&& incoming.pending@.len() > 0 && incoming.pending@[0].body is Begin
                 && e.session.begun_with@ == Some((IncomingChannel(incoming.pending@[0].channel), incoming.pending@[0].body->Begin_0))   // [C13.session.begin-handshake.peers-begin-taken-over] [C11.session.begin-handshake.channel-as-arrived] ... and the peer's answering begin (its windows, its handle-max) has been taken over by the session, with the channel it arrived on
             &&& e.incoming.pending@ == incoming.pending@.skip(1)                                                           // [C01.session.begin-handshake.nothing-else-consumed] nothing behind the begin is consumed: frames the peer pipelines behind its begin stay for the engine
+            &&& e.conn_control == conn_control && e.control == control && e.outgoing_link_frames == outgoing_link_frames && e.session.ch == session.ch   // [C13.session-wiring.engine-keeps-its-ends] the engine that comes up reads and writes exactly the channel ends it was given (unit SESSWIRING relies on it)
         }),
         incoming.pending@.len() > 0 && incoming.pending@[0].body is End ==> r is Err,                                          // [C13.session.begin-handshake.no-session-on-an-end] a peer that answers the begin with an end: no session comes up
         r is Err && r->Err_0 is RemoteEndedWithError ==> incoming.pending@.len() > 0 && incoming.pending@[0].body is End
